@@ -219,6 +219,19 @@ def ops_for(a, m):
             m2.bonds = set(m.bonds) | {(x + nn, y + nn, t) for x, y, t in m.bonds}
         return b, m2
     ops.append(("concatenate a + a", cat))
+    def cat_one(a, m):
+        # a list of one operand (the chains of a single-chain structure, ...): the result is a container of its own
+        # like every other concatenation -- the list-of-atoms model builds a new list
+        b = struc.concatenate([a])
+        if m.n() > 0 and isinstance(b, (struc.AtomArray, struc.AtomArrayStack)):
+            old = int(b.res_id[0])
+            b.res_id[0] = old + 7
+            c = compare(a, m)
+            b.res_id[0] = old
+            if c:
+                return "editing the result of concatenate([a]) changed the operand: " + c, None
+        return b, m.copy()
+    ops.append(("concatenate([a]) of one operand", cat_one))
     def cat_other(a, m):
         # documented: the box of the first element that has a box is kept
         o = a.copy()
